@@ -379,7 +379,7 @@ def drift_check(ctx, tag, n):
         acc, rej, _ = validate_history_trace(ctx, SPEC, "ConcurrencyITrace", ev, tag="%s-i%d" % (tag, i), max_rounds=1)
         return acc, rej, sum(1 for e in ev if e.get("ev", "").startswith("cq."))
     tot = 0
-    for acc, rej, k in parallel(one, list(range(n)), n=8):
+    for acc, rej, k in parallel(one, list(range(n)), n=2):
         tot += k
         if rej:
             ctx.cov["model_drift"] = True
@@ -397,7 +397,7 @@ def judge(ctx, binary, scripts, traces, tag, seen_hist):
     def one(it):
         i, ev = it
         return validate_history_trace(ctx, SPEC, "ConcurrencyTrace", ev, tag="%s%d" % (tag, i))
-    res = parallel(one, list(enumerate(traces)), n=8)
+    res = parallel(one, list(enumerate(traces)), n=2)
     for (acc, rejected, rounds), ev, sc in zip(res, traces, scripts):
         cfg, hs = split_histories(ev)
         ctx.cov["traces_validated_against_impl"] += acc
@@ -488,7 +488,7 @@ def run(ctx):
         return ctx.tlc(sd, mod, cfg, workers=(4 if not T else 8), timeout=1500, label=label)
     from concurrent.futures import ThreadPoolExecutor
     bg = ThreadPoolExecutor(max_workers=1)
-    fut = bg.submit(lambda: parallel(tl, jobs, n=(8 if not T else 4)))
+    fut = bg.submit(lambda: parallel(tl, jobs, n=2))
 
     seen = set()
     # (3) code -> spec, while TLC works: random scripts incl. concurrency, recorded and validated
